@@ -520,3 +520,10 @@ impl Archive {
         ensures r matches Ok(bd) ==> bd.home() == *self,
     { unimplemented!() }
 }
+
+
+// Ghost phase marker threaded through delete_bands (rule R8: a trailing tracked parameter, nothing else changes):
+// true exactly while the block-deletion sweep is running.
+tracked struct GcPhase {
+    ghost deleting_blocks: bool,
+}
